@@ -44,7 +44,12 @@ _add('C05',
 _add('C06',
      'T1 C06_sound (Coq): the acceptor replays the Spawn/Enter/Leave events of each frame from the previous populations; on accepted '
      'traces no node exceeds servers+queue capacity, the system never exceeds system capacity, and C06_rejected_iff_full: an external '
-     'arrival is rejected iff its node or the system is full at its turn (batch members one by one). K1 on all regions without reroute.',
+     'arrival is rejected iff its node or the system is full at its turn (batch members one by one). K1 on all regions without reroute. '
+     'T2 engine_capacity (Coq, Hoare-style over the engine monad; node capacities by a walk that carries "destination has space" from each of the three '
+     'admission tests to the accept it guards, through the unblocking cascade by induction on fuel; system capacity through the monotone quantity '
+     'created - exited and conservation): for every configuration, every state satisfying the invariants, every oracle of draws and any number of events the '
+     'ENGINE MODEL never holds more than servers + queue capacity at a node nor more than the system capacity. K2: stepwise correspondence of the model '
+     'with the implementation on the slice of this property; the hypotheses are evaluated on the real initial snapshot (cap_b_sound).',
      'Open finding F-06a (node_capacity of a scheduled node computed while c=0) is reported as KNOWN-FINDING.')
 _add('C07',
      'T1 C07_sound (Coq): on accepted traces a finishing customer leaves at once iff its destination has space, otherwise is blocked '
